@@ -75,9 +75,22 @@ def build_set(items):
     """items: list of ('t', text) / ('b',) nodes for the first caption"""
     from pycaption import Caption, CaptionList, CaptionNode, CaptionSet
 
-    from pycaption.geometry import Layout, Point, Size, UnitEnum
+    from pycaption.geometry import Layout, Padding, Point, Size, UnitEnum
 
     nodes = []
+    if items and items[0][0] == "P":
+        # a positioned caption (region with different paddings on every side) whose every node carries that same layout,
+        # the way the DFXP reader builds them
+        pct = lambda v: Size(v, UnitEnum.PERCENT)  # noqa
+        mk = lambda: Layout(origin=Point(pct(10), pct(70)), extent=None, padding=Padding(before=pct(1), after=pct(2), start=pct(3), end=pct(6)))  # noqa
+        shared_layout = mk()
+        for n, it in enumerate(items[1:]):
+            lay = shared_layout if items[0][1] == "same-object" else mk()
+            nodes.append(CaptionNode.create_text(it[1], layout_info=lay) if it[0] == "t" else CaptionNode.create_break(layout_info=lay))
+        cl = CaptionList()
+        cl.append(Caption(1000000, 2000000, nodes, layout_info=shared_layout))
+        cl.append(Caption(5000000, 6000000, [CaptionNode.create_text("Sentinel")]))
+        return CaptionSet({"en-US": cl})
     positioned = any(it[0] == "tl" for it in items)
     la = Layout(origin=Point(Size(10, UnitEnum.PERCENT), Size(10, UnitEnum.PERCENT))) if positioned else None
     lb = Layout(origin=Point(Size(20, UnitEnum.PERCENT), Size(70, UnitEnum.PERCENT))) if positioned else None
@@ -175,6 +188,9 @@ def features(items):
     f = set()
     prev_break = True
     for it in items:
+        if it[0] == "P":
+            f.add("every-node-carries-the-caption-layout")
+            continue
         if it[0] == "s":
             f.add("class-only-style-node")
             continue
@@ -223,7 +239,7 @@ def minimise(wname, items, kind):
         changed = False
         # drop nodes
         for i in range(len(items)):
-            if items[i][0] == "s":
+            if items[i][0] in ("s", "P"):
                 continue  # style nodes stay (dropping one of a pair would leave the balanced domain)
             cand = items[:i] + items[i + 1 :]
             if not any(it[0] in ("t", "tl") and visible(it[1]) for it in cand):
@@ -281,9 +297,40 @@ def visible(s):
 # one cue whose lines are the captions' lines in order; the other writers keep one cue per caption
 MERGING = ("SRTWriter", "SinglePositioningDFXPWriter", "LegacyDFXPWriter")
 TAILS = ["plain", "closing-style", "closing-class-style", "break"]
+SECOND = ["same-times/last", "same-times/first", "later/last", "later/first"]
 
 
-def eval_concurrent(wname, texts, tail):
+def _eval_concurrent_two(wname, cl, lines, klass, second):
+    from pycaption import Caption, CaptionList, CaptionNode, CaptionSet
+
+    fr = CaptionList()
+    t0 = {"same-times": 1000000, "later": 3000000}[second.split("/")[0]]
+    fr.append(Caption(t0, t0 + 1000000, [CaptionNode.create_text("Un")]))
+    fr.append(Caption(t0, t0 + 1000000, [CaptionNode.create_text("Deux")]))
+    fr.append(Caption(8000000, 9000000, [CaptionNode.create_text("Fin")]))
+    order = ["fr-FR", "en-US"] if second.endswith("/first") else ["en-US", "fr-FR"]
+    cs = CaptionSet({l: {"en-US": cl, "fr-FR": fr}[l] for l in order})
+    klass += "/second-language-" + second
+    try:
+        doc = writer_obj(wname).write(cs)
+        t = parsers.parse_ttml(doc)
+    except parsers.ParseError as e:
+        return [(f"C03/{wname}/output-unparseable/{klass}", {"err": str(e)[:300]})], "unparseable"
+    except Exception as e:  # noqa
+        return [(f"C03/{wname}/raises:{type(e).__name__}/{klass}", {"err": str(e)[:200]})], "raises"
+    got = {}
+    for d in t["divs"]:
+        got.setdefault(d["lang"], []).extend([[parsers.norm_line(l) for l in p["lines"] if parsers.norm_line(l) != ""] for p in d["ps"]])
+    merging = wname in MERGING
+    want = {"en-US": [lines, ["Sentinel"]] if merging else [[l] for l in lines] + [["Sentinel"]], "fr-FR": [["Un", "Deux"], ["Fin"]] if merging else [["Un"], ["Deux"], ["Fin"]]}
+    if got != want:
+        bad = sorted(l for l in set(got) | set(want) if got.get(l) != want.get(l))
+        kind = "cue-count" if any(len(got.get(l, [])) != len(want.get(l, [])) for l in bad) else "lines-differ"
+        return [(f"C03/{wname}/{kind}/{klass}", {"got": got, "want": want, "doc": doc[-900:]})], kind
+    return [], "ok"
+
+
+def eval_concurrent(wname, texts, tail, second=None):
     """texts: the single lines of 2-3 captions with identical times; tail: how every caption but the last one ends"""
     from pycaption import Caption, CaptionList, CaptionNode, CaptionSet
 
@@ -302,6 +349,10 @@ def eval_concurrent(wname, texts, tail):
     cl.append(Caption(5000000, 6000000, [CaptionNode.create_text("Sentinel")]))
     lines = [parsers.norm_line(t) for t in texts]
     klass = f"concurrent-run-of-{len(texts)}/{tail}"
+    if second:
+        # a second language with cues of its own (a concurrent pair at other times, then a single cue): every language
+        # keeps exactly its own cues
+        return _eval_concurrent_two(wname, cl, lines, klass, second)
     try:
         doc = writer_obj(wname).write(CaptionSet({"en-US": cl}))
         got = parse_output(wname, doc)
@@ -340,6 +391,7 @@ def shards(tier, seed):
     b = bounds(tier)
     sh = [{"k": "reuse", "w": None}]
     sh.append({"k": "concurrent", "w": None})
+    sh.append({"k": "padded", "w": None})
     for w in WRITERS:
         nparts = (2 if tier == "quick" else 24) if w not in ("SRTWriter", "WebVTTWriter", "MicroDVDWriter") else (1 if tier == "quick" else 4)
         for part in range(nparts):
@@ -366,6 +418,27 @@ def run_shard(d):
                         acc.case(("concurrent", w, texts, tail), True, out, {"writer": w, "captions_with_identical_times": list(texts), "earlier_captions_end_with": tail})
                         for sig, det in v:
                             acc.violation(sig, {"w": w, "concurrent": list(texts), "tail": tail}, det)
+        for w in ("DFXPWriter", "SinglePositioningDFXPWriter", "LegacyDFXPWriter"):
+            for texts in itertools.product(toks, repeat=2):
+                for tail in TAILS:
+                    for second in SECOND:
+                        v, out = eval_concurrent(w, list(texts), tail, second)
+                        acc.case(("concurrent", w, texts, tail, second), True, out, {"writer": w, "captions_with_identical_times": list(texts), "earlier_captions_end_with": tail, "second_language": second})
+                        for sig, det in v:
+                            acc.violation(sig, {"w": w, "concurrent": list(texts), "tail": tail, "second": second}, det)
+        return acc.result()
+    if d["k"] == "padded":
+        for w in WRITERS:
+            for nl in (1, 2, 3):
+                for lines in itertools.product(STRUCT, repeat=nl):
+                    if w == "MicroDVDWriter" and any("|" in l for l in lines):
+                        continue
+                    for how in ("same-object", "equal-objects"):
+                        items = [("P", how)] + items_from_lines(list(lines))
+                        v, out = evaluate(w, items)
+                        acc.case((w, lines, how, "padded"), True, (out, expected_lines(items)), {"writer": w, "nodes": items})
+                        for sig, det in v:
+                            acc.violation(sig, {"w": w, "items": items}, det)
         return acc.result()
     w = d["w"]
     if d["k"] == "single":
@@ -411,7 +484,7 @@ def replay(case):
     if case.get("reuse"):
         return shared.replay(reuse_items(), reuse_eval, case["index"])
     if case.get("concurrent"):
-        v, _ = eval_concurrent(case["w"], case["concurrent"], case["tail"])
+        v, _ = eval_concurrent(case["w"], case["concurrent"], case["tail"], case.get("second"))
         return [{"sig": s, "detail": d} for s, d in v]
     items = [tuple(i) for i in case["items"]]
     v, _ = evaluate(case["w"], items)
